@@ -499,8 +499,8 @@ int expr_div_constred(expr * value, int * result)
 
         value->type = EXPR_INT;
         value->comb.comb = COMB_TYPE_INT;
-        value->int_value = left_value->enumtype.id_enumerator_value->index / 
-                            right_value->enumtype.id_enumerator_value->index;
+        value->int_value = (right_value->enumtype.id_enumerator_value->index == -1) ? -left_value->enumtype.id_enumerator_value->index :
+                            left_value->enumtype.id_enumerator_value->index / right_value->enumtype.id_enumerator_value->index;
 
         expr_delete(left_value);
         expr_delete(right_value);
@@ -519,8 +519,8 @@ int expr_div_constred(expr * value, int * result)
 
         value->type = EXPR_INT;
         value->comb.comb = COMB_TYPE_INT;
-        value->int_value = left_value->int_value /
-                            right_value->enumtype.id_enumerator_value->index;
+        value->int_value = (right_value->enumtype.id_enumerator_value->index == -1) ? -left_value->int_value :
+                            left_value->int_value / right_value->enumtype.id_enumerator_value->index;
 
         expr_delete(left_value);
         expr_delete(right_value);
@@ -539,8 +539,8 @@ int expr_div_constred(expr * value, int * result)
 
         value->type = EXPR_INT;
         value->comb.comb = COMB_TYPE_INT;
-        value->int_value = left_value->enumtype.id_enumerator_value->index / 
-                            right_value->int_value;
+        value->int_value = (right_value->int_value == -1) ? -left_value->enumtype.id_enumerator_value->index :
+                            left_value->enumtype.id_enumerator_value->index / right_value->int_value;
 
         expr_delete(left_value);
         expr_delete(right_value);
@@ -627,8 +627,8 @@ int expr_mod_constred(expr * value, int * result)
 
         value->type = EXPR_INT;
         value->comb.comb = COMB_TYPE_INT;
-        value->int_value = left_value->enumtype.id_enumerator_value->index % 
-                            right_value->enumtype.id_enumerator_value->index;
+        value->int_value = (right_value->enumtype.id_enumerator_value->index == -1) ? 0 :
+                            left_value->enumtype.id_enumerator_value->index % right_value->enumtype.id_enumerator_value->index;
 
         expr_delete(left_value);
         expr_delete(right_value);
@@ -647,8 +647,8 @@ int expr_mod_constred(expr * value, int * result)
 
         value->type = EXPR_INT;
         value->comb.comb = COMB_TYPE_INT;
-        value->int_value = left_value->int_value %
-                            right_value->enumtype.id_enumerator_value->index;
+        value->int_value = (right_value->enumtype.id_enumerator_value->index == -1) ? 0 :
+                            left_value->int_value % right_value->enumtype.id_enumerator_value->index;
 
         expr_delete(left_value);
         expr_delete(right_value);
@@ -667,8 +667,8 @@ int expr_mod_constred(expr * value, int * result)
 
         value->type = EXPR_INT;
         value->comb.comb = COMB_TYPE_INT;
-        value->int_value = left_value->enumtype.id_enumerator_value->index % 
-                            right_value->int_value;
+        value->int_value = (right_value->int_value == -1) ? 0 :
+                            left_value->enumtype.id_enumerator_value->index % right_value->int_value;
 
         expr_delete(left_value);
         expr_delete(right_value);
